@@ -461,6 +461,7 @@ type DNode struct {
 	Body     string // body text (schema / description / enum / regex), "" if none
 	BodyKind string // "schema" | "text" | "enum" | "regex"
 	Kids     []*DNode
+	Explicit bool // always written with an explicit ( ) context
 }
 
 func ModelTree(m *Model) []*DNode {
@@ -553,10 +554,18 @@ func ModelTree(m *Model) []*DNode {
 		}
 		if r.Grouped {
 			u := &DNode{Keyword: "URL", Params: []string{r.Path}}
-			if len(r.Tags) > 0 {
-				u.Kids = append(u.Kids, tagsNode(r.Tags))
+			if len(r.Tags) > 0 && len(methods) >= 2 && len(methods[1].Kids) > 0 && (len(r.Path)+len(methods))%2 == 0 {
+				// the URL-level Tags after some of the methods: the method right before it is closed by an explicit ')',
+				// so that the Tags line belongs to the URL again (after an implicit method it would be the method's own)
+				methods[1].Explicit = true
+				u.Kids = append(u.Kids, methods[0], methods[1], tagsNode(r.Tags))
+				u.Kids = append(u.Kids, methods[2:]...)
+			} else {
+				if len(r.Tags) > 0 {
+					u.Kids = append(u.Kids, tagsNode(r.Tags))
+				}
+				u.Kids = append(u.Kids, methods...)
 			}
-			u.Kids = append(u.Kids, methods...)
 			out = append(out, u)
 		} else {
 			out = append(out, methods...)
@@ -772,7 +781,7 @@ func (r *renderer) node(n *DNode, depth int, first bool) {
 		}
 	}
 	explicit := canExplicit(n.Keyword) && (n.Body != "" || len(n.Kids) > 0) &&
-		(l.ExplicitCtx == 2 || (l.ExplicitCtx == 1 && rng.Chance(1, 3)))
+		(n.Explicit || l.ExplicitCtx == 2 || (l.ExplicitCtx == 1 && rng.Chance(1, 3)))
 	if n.BodyKind == "text" && !explicit && textNeedsParens(n.Body) {
 		explicit = true
 	}
